@@ -447,6 +447,11 @@ func runC01(ctx *harness.Ctx) {
 		}
 		c01One(ctx, t, "generated-list", entryByName[le], src)
 	})
+	ctx.Rapid("clause-permutations", ctx.Pick(2500, 50000), func(t *rapid.T) {
+		src, kind := drawClausePermutation(t)
+		es := entriesForKind(kind)
+		c01One(ctx, t, "clause-permutations", es[rapid.IntRange(0, len(es)-1).Draw(t, "entry")], src)
+	})
 	ctx.Rapid("mutant", ctx.Pick(8000, 250000), func(t *rapid.T) {
 		s := drawValid(t)
 		src := mutate.Tokens(t, s.Src, 2)
